@@ -187,6 +187,44 @@ class Context:
             raise AnalysisError(what)
 
 
+class Recorder:
+    """Obligation sink with the Context API, used inside worker processes."""
+
+    def __init__(self, ctx: "Context"):
+        self.prop, self.tier, self.seed, self.sources = ctx.prop, ctx.tier, ctx.seed, ctx.sources
+        self.obligations: List[Obligation] = []
+
+    ob = Context.ob
+    ok = Context.ok
+    bad = Context.bad
+    unk = Context.unk
+
+
+_PAR_FN = None
+
+
+def _par_call(arg):
+    return _PAR_FN(arg)
+
+
+def parallel_map(fn, items, jobs: Optional[int] = None):
+    """Maps fn over items in forked worker processes (the analysis is CPU-bound pure Python).
+    fn must be a picklable-result function of one item; state is inherited through fork."""
+    import multiprocessing as mp
+    global _PAR_FN
+    items = list(items)
+    jobs = jobs or int(os.environ.get("A5_JOBS", "0")) or min(16, os.cpu_count() or 1)
+    if jobs <= 1 or len(items) <= 1:
+        return [fn(x) for x in items]
+    _PAR_FN = fn
+    try:
+        ctx = mp.get_context("fork")
+        with ctx.Pool(min(jobs, len(items))) as pool:
+            return pool.map(_par_call, items, chunksize=1)
+    finally:
+        _PAR_FN = None
+
+
 # ---------------------------------------------------------------------------------
 # known findings
 # ---------------------------------------------------------------------------------
